@@ -972,10 +972,13 @@ func processValue(fset *token.FileSet, info *types.Info, call *ast.CallExpr) (*V
 				return false
 			}
 		case *ast.CallExpr:
-			// Only acceptable if it's a type conversion.
-			if _, isFunc := info.TypeOf(expr.Fun).(*types.Signature); isFunc {
-				ok = false
-				return false
+			// Only acceptable if it's a type conversion: calling a value of a
+			// named function type is a call, converting to one is not.
+			if t := info.TypeOf(expr.Fun); t != nil && !info.Types[expr.Fun].IsType() {
+				if _, isFunc := t.Underlying().(*types.Signature); isFunc {
+					ok = false
+					return false
+				}
 			}
 		default:
 			ok = false
